@@ -1081,6 +1081,19 @@ Fixpoint jumps_stmt (s : stmt) : bool :=
   end.
 Definition has_jump_top (p : list stmt) : bool := existsb jumps_stmt p.
 
+(* does global code (not descending into function bodies or eval text) contain a block, try or with statement? *)
+Fixpoint blocky_stmt (s : stmt) : bool :=
+  let fix jc (l : list (option expr * list stmt)) :=
+    match l with [] => false | (_, b) :: xs => (fix jl (l : list stmt) := match l with [] => false | x :: xs => blocky_stmt x || jl xs end) b || jc xs end in
+  match s with
+  | JBlock _ | JTry _ _ _ | JWith _ _ => true
+  | JIf _ a b => blocky_stmt a || match b with Some b => blocky_stmt b | None => false end
+  | JWhile _ b | JDoWhile b _ | JFor _ _ _ b | JForIn _ _ b | JForInSet _ _ _ b | JLabelled _ b => blocky_stmt b
+  | JSwitch _ cs => jc cs
+  | _ => false
+  end.
+Definition has_block_top (p : list stmt) : bool := existsb blocky_stmt p.
+
 (* log, outcome, completion value of the program (14: the value of its SourceElements; empty -> undefined) *)
 Definition run_program_cv (fuel : nat) (p : list stmt) : list val * outcome * val :=
   let ds := hoist p in
